@@ -91,8 +91,10 @@ def as_time(t, mode):
     does not exist on 2024-03-31 in the pinned zone (02:59:5x ... 03:00:0x), where local-time conversions are not monotone."""
     if not mode:
         return t
-    if mode == 3:  # time stamps taken from a numpy array / a pandas column
+    if mode in (3, 4):  # time stamps taken from a numpy array / a pandas column (mode 4: an unsigned column where the value allows it)
         import numpy as np
+        if mode == 4 and isinstance(t, int) and 0 <= t < 2 ** 32:
+            return np.uint64(t) if t % 2 == 0 else np.uint32(t)
         return np.float64(t) if isinstance(t, float) else np.int64(t)
     import datetime
     if mode == 2:
